@@ -107,3 +107,25 @@ Proof. vm_compute. reflexivity. Qed.
 Example ex_overlap : read (write ex_img ex_map 70) = Ok (ex_map, 70) /\
   sub 64 6 (write ex_img ex_map 70) = [95; 95; 70; 77; 65; 80].
 Proof. vm_compute. split; reflexivity. Qed.
+
+(* the JSON path of the CLI (fmap jget J IMG; fmap jput J IMG): for a map whose names are 7-bit
+   bytes (any of them, including control characters, quotes and names filling all 32 bytes),
+   marshalling the map just read and unmarshalling it gives the same map ... *)
+Theorem C13_json_map_id : forall m, names32 m = true -> names_ascii m = true ->
+  json_map m = Some (Ok m).
+Proof. exact json_map_id. Qed.
+Print Assumptions C13_json_map_id.
+
+(* ... and writing it back leaves the image bytes unchanged (every map that Read returns has
+   32-byte names: read_names32) *)
+Theorem C13_json_roundtrip_id : forall img m start,
+  bytes_ok img = true -> read img = Ok (m, start) -> names_ascii m = true ->
+  json_roundtrip img = Some (Ok img).
+Proof. exact json_roundtrip_id. Qed.
+Print Assumptions C13_json_roundtrip_id.
+
+Example ex_json_full_name :
+  json_name (zrepeat 65 32) = Some (Ok (zrepeat 65 32)) /\
+  json_name ([34; 92; 0; 60; 1] ++ zrepeat 0 27) = Some (Ok ([34; 92; 0; 60; 1] ++ zrepeat 0 27)) /\
+  json_name ([200] ++ zrepeat 0 31) = None.
+Proof. vm_compute. repeat split; reflexivity. Qed.
